@@ -19,12 +19,17 @@ theorem eval_toExpr (sh : P → DecLit) : ∀ a : Arg P, NumRoundTrip P sh a.val
   | .val v, hrt => by
     have := hrt v (by simp [Arg.vals])
     unfold DecLit.value at this
+    have hlit : eval (P := P) (fun _ => none) (sh v).lit = some (Angle.ofDec (sh v).m (sh v).e) := by
+      unfold DecLit.lit
+      by_cases he : (sh v).e = 0
+      · simp only [he, if_true, eval]
+      · simp only [he, if_false, eval]
     by_cases hn : (sh v).neg = true
-    · simp only [Arg.toExpr, hn, if_true, eval, Arg.eval, Option.map_some]
+    · simp only [Arg.toExpr, hn, if_true, eval, Arg.eval, hlit, Option.map_some]
       rw [if_pos hn] at this; rw [this]
     · have hn' : (sh v).neg = false := by simpa using hn
       rw [if_neg hn] at this
-      simp only [Arg.toExpr, hn', Bool.false_eq_true, if_false, eval, Arg.eval, this]
+      simp only [Arg.toExpr, hn', Bool.false_eq_true, if_false, Arg.eval, hlit, this]
   | .name s v, _ => rfl
   | .neg e, hrt => by simp only [Arg.toExpr, eval, Arg.eval, eval_toExpr sh e hrt]
   | .div a b, hrt => by
@@ -253,5 +258,66 @@ theorem program_runs_as_lines (sh : P → DecLit) (tbl : List GateTpl) (c : QCir
       have hn : total (exportRegs c.nq c.nc).qregs = c.nq := by simp [exportRegs, hq, total]
       rw [hn]
       simp [runStmts, runStmt]
+
+end Q1t.OpenQasm
+
+/-! ## the reference lexer on decimal literals (as `Display for f64` prints them: digits, optionally `.` digits;
+never an exponent) -/
+namespace Q1t.OpenQasm
+open Q1t.Spec.OQ2
+
+theorem takeWhile_append_stop {β : Type} (p : β → Bool) (l : List β) (x : β) (r : List β) (hl : ∀ a ∈ l, p a = true)
+    (hx : p x = false) : (l ++ x :: r).takeWhile p = l ∧ (l ++ x :: r).dropWhile p = x :: r := by
+  induction l with
+  | nil => simp [List.takeWhile, List.dropWhile, hx]
+  | cons a l ih =>
+    have ha := hl a (List.mem_cons_self ..)
+    obtain ⟨h1, h2⟩ := ih fun b hb => hl b (List.mem_cons_of_mem _ hb)
+    simp [List.takeWhile, List.dropWhile, ha, h1, h2]
+
+theorem takeWhile_all {β : Type} (p : β → Bool) (l : List β) (hl : ∀ a ∈ l, p a = true) :
+    l.takeWhile p = l ∧ l.dropWhile p = [] := by
+  induction l with
+  | nil => simp
+  | cons a l ih =>
+    have ha := hl a (List.mem_cons_self ..)
+    obtain ⟨h1, h2⟩ := ih fun b hb => hl b (List.mem_cons_of_mem _ hb)
+    simp [List.takeWhile, List.dropWhile, ha, h1, h2]
+
+/-- the characters that follow a printed number in the exported text -/
+def numberEnders : List Char := [')', ',', '/', ' ', ';', ']', '\n']
+
+theorem ender_facts (x : Char) (hx : x ∈ numberEnders) :
+    Spec.OQ2.isDigit x = false ∧ x ≠ '.' ∧ x ≠ 'e' ∧ x ≠ 'E' := by
+  simp only [numberEnders, List.mem_cons, List.not_mem_nil, or_false] at hx
+  rcases hx with rfl | rfl | rfl | rfl | rfl | rfl | rfl <;> decide
+
+/-- an integer literal `ddd` followed by such a character is read as the token `int ddd` -/
+theorem lexNumber_int (ip : List Char) (x : Char) (r : List Char) (hip : ∀ c ∈ ip, Spec.OQ2.isDigit c = true)
+    (hx : x ∈ numberEnders) : lexNumber (ip ++ x :: r) = (.int (Spec.OQ2.digitsVal ip), x :: r) := by
+  obtain ⟨hd, hdot, he, hE⟩ := ender_facts x hx
+  obtain ⟨h1, h2⟩ := takeWhile_append_stop Spec.OQ2.isDigit ip x r hip hd
+  unfold lexNumber
+  simp only [h1, h2]
+  rcases r with _ | ⟨y, _ | ⟨z, t⟩⟩
+  · split <;> simp_all
+  · split <;> simp_all
+  · split <;> simp_all <;> split at * <;> simp_all
+
+/-- a literal `ddd.fff` followed by such a character is read as the token `real (dddfff) (−|fff|)` -/
+theorem lexNumber_real (ip fp : List Char) (x : Char) (r : List Char) (hip : ∀ c ∈ ip, Spec.OQ2.isDigit c = true)
+    (hfp : ∀ c ∈ fp, Spec.OQ2.isDigit c = true) (hx : x ∈ numberEnders) :
+    lexNumber (ip ++ '.' :: (fp ++ x :: r)) =
+      (.real (Spec.OQ2.digitsVal (ip ++ fp)) (-(fp.length : Int)), x :: r) := by
+  obtain ⟨hd, hdot, he, hE⟩ := ender_facts x hx
+  have hdotd : Spec.OQ2.isDigit '.' = false := by decide
+  obtain ⟨h1, h2⟩ := takeWhile_append_stop Spec.OQ2.isDigit ip '.' (fp ++ x :: r) hip hdotd
+  obtain ⟨h3, h4⟩ := takeWhile_append_stop Spec.OQ2.isDigit fp x r hfp hd
+  unfold lexNumber
+  simp only [h1, h2, h3, h4]
+  rcases r with _ | ⟨y, _ | ⟨z, t⟩⟩
+  · split <;> simp_all
+  · split <;> simp_all
+  · split <;> simp_all <;> split at * <;> simp_all
 
 end Q1t.OpenQasm
